@@ -215,6 +215,26 @@ crate::harnesses! { REG;
     /// thorough attempt timeout=3000 mem=30 | dense MLE arithmetic, all five operators in one harness, 2 variables
     #[unwind(10)]
     fn c17_dense_arith_2() { dense_arith::<2, 4>() }
+    /// quick required | the special 0-variable zero as LEFT and RIGHT operand: zero() + p, p + zero(), zero() - p (= -p), p - zero() for ALL 2-variable tables and points
+    #[unwind(10)]
+    fn c17_dense_zero_operand() {
+        let (t, a) = dense::<4>(2);
+        let (p, pv) = point::<2>();
+        let z = DenseMultilinearExtension::<F>::zero();
+        let e = mle_eval(&t, &p, 2);
+        let which: u8 = any();
+        assume(which < 4);
+        let (r, want) = match which {
+            0 => (&z + &a, e),
+            1 => (&a + &z, e),
+            2 => (&z - &a, (P - e) % P),
+            _ => (&a - &z, e),
+        };
+        crate::cover!(which == 2 && e != 0);
+        let ok = r.num_vars() == 2 && r.evaluate(&pv).val() == want;
+        core::mem::forget((a, z, r, pv));
+        assert!(ok);
+    }
     /// quick finding | KNOWN FINDING region: dense MLE on 2 variables scaled by the scalar 0, then evaluated at a 2-variable point (the product collapses to the 0-variable constant zero and evaluate() asserts on the point length)
     #[unwind(10)]
     fn c17_scale_by_zero_finding() {
